@@ -107,6 +107,22 @@ def find_pair_loops(tu, fn):
                 else:
                     rec(c, cur, outer_for)
             return
+        if k == 'IfStmt':
+            # an if / else-if chain over `<mode> == K` is the switch it replaces: the then-branch is `case K`
+            c = strip(node['inner'][0])
+            lab = None
+            if c.get('kind') == 'BinaryOperator' and c.get('opcode') == '==':
+                a_, b_ = strip(c['inner'][0], casts=True), strip(c['inner'][1], casts=True)
+                for u, v in ((a_, b_), (b_, a_)):
+                    if u.get('kind') in ('MemberExpr', 'DeclRefExpr') and ('mode' in render(u) or 'gravity' in render(u)):
+                        if v.get('kind') == 'IntegerLiteral':
+                            lab = 'case ' + v['value']
+                        elif v.get('kind') == 'DeclRefExpr' and v['referencedDecl'].get('kind') == 'EnumConstantDecl':
+                            lab = v['referencedDecl']['name']
+            rec(node['inner'][1], cases + ((lab,) if lab else ()), outer_for)
+            if len(node['inner']) > 2 and node['inner'][2].get('kind'):
+                rec(node['inner'][2], cases, outer_for)
+            return
         if k == 'ForStmt':
             body = node['inner'][-1]
             # is this an inner pair loop? its own body (not nested loops) defines dx from two particle positions
